@@ -122,6 +122,26 @@ Check (C20_relock_stable : forall idx man locked,
     /\ (forall k rgs, needed idx man P k -> (forall rg, In rg rgs -> imposes idx man P k rg) ->
           exists w, alookup k locked = Some w /\ choose_version idx locked k rgs = Some w)).
 
+Check (C20_up_to_date_sound : forall idx man1 man2 (l : lockfile),
+  valid_solution idx man1 (locked_of (lock_entries l)) = true ->
+  up_to_date matches_fix l man2 = true ->
+  valid_solution idx man2 (locked_of (lock_entries l)) = true).
+
+Check (C20_copy_from_lock_right : forall idx man1 man2 (l : lockfile) d,
+  valid_solution idx man1 (locked_of (lock_entries l)) = true ->
+  up_to_date matches_fix l man2 = true ->
+  edge idx man2 (locked_of (lock_entries l)) d ->
+  exists w, index_dep_version matches_fix (copy_from_lock l) d = Some w
+         /\ alookup (dep_key d) (locked_of (lock_entries l)) = Some w
+         /\ satisfies (dreq d) w = true).
+
+Check (C20_up_to_date_cur_refuted :
+  exists idx man1 man2 (l : lockfile),
+    valid_solution idx man1 (locked_of (lock_entries l)) = true
+    /\ up_to_date matches_cur l man2 = true
+    /\ valid_solution idx man2 (locked_of (lock_entries l)) = false
+    /\ exists_solution idx man2 <> None).
+
 Check (C20_lock_crash_cur_refuted :
   valid_solution w_idx w_man w_sol = true
   /\ exists_solution w_idx w_man = Some w_sol
